@@ -8,13 +8,19 @@ Tie: harness/c07.c feeds server streams produced by the independent reference en
 (Driver/C07.lean) runs the client model AND the specification decoders on the same bytes; exact
 comparison of every observation line; direct oracle: framebuffer == what the generator encoded.
 """
-import json, os, struct, zlib, subprocess
-from .. import common
+import json, os, struct, zlib, subprocess, select
+from .. import common, build
 from . import c07_enc as E
 
 PROPS_MOD = "VncModel.Props.C07"
 EXTRA_TARGETS = ["drv_c07"]
-HARNESS_EXTRA = ("-fno-sanitize=alignment",)
+# -ftrivial-auto-var-init=pattern: a local variable the library reads before writing it holds 0xFE.. bytes
+# (a hostile value), not whatever the previous call left on the stack: such reads become deterministic
+HARNESS_EXTRA = ("-fno-sanitize=alignment", "-ftrivial-auto-var-init=pattern")
+
+
+def realtime_hang(impl):
+    return bool(impl) and impl[-1].strip() == "HANG realtime"
 
 
 def build_harness(ctx):
@@ -36,6 +42,13 @@ class Lzo:
             self.p = subprocess.Popen([self.exe], stdin=subprocess.PIPE, stdout=subprocess.PIPE, text=True, env=env)
         self.p.stdin.write("lzo %s\n" % (data.hex() or "-"))
         self.p.stdin.flush()
+        # finite limit (generous: the helper answers in milliseconds); expiry is a machinery error of the
+        # generator, never a verdict about the library
+        rd, _, _ = select.select([self.p.stdout], [], [], 600)
+        if not rd:
+            self.p.kill()
+            self.p = None
+            raise RuntimeError("lzo helper did not answer within 600 s")
         out = self.p.stdout.readline().strip()
         if out == "bad-op" or not out:
             raise RuntimeError("lzo helper failed")
@@ -142,6 +155,27 @@ def gen_cursor(rng, sess, rich, size=None):
     return hdr + body, obs
 
 
+def gen_extdesktop(rng, sess, size=None, nscreens=None):
+    """ExtendedDesktopSize rectangle of a conforming server: 1..4 screens with non-zero ids and
+    non-empty geometry; the framebuffer is re-allocated exactly when the announced size differs"""
+    if size is None:
+        size = (sess.W, sess.H) if rng.random() < 0.25 else (rng.randint(1, 100), rng.randint(1, 80))
+    nw, nh = size
+    n = nscreens or rng.choice([1, 1, 2, 4])
+    body = bytes([n, 0, 0, 0])
+    for k in range(n):
+        body += struct.pack(">IHHHHI", rng.choice([1, 2, 0x100, 0x10000, 0x1000000, 0xFFFFFFFF, rng.randint(1, 2 ** 32 - 1)]),
+                            rng.randint(0, 65535), rng.randint(0, 65535), rng.choice([1, 256, nw, 65535]), rng.choice([1, 256, nh, 65535]),
+                            rng.getrandbits(32))
+    rect = struct.pack(">HHHHI", rng.choice([0, 1, 2]), 0, nw, nh, E.ENC["extdesktopsize"]) + body
+    cb = []
+    if (nw, nh) != (sess.W, sess.H):
+        sess.resize(nw, nh)
+        cb.append("malloc:%d:%d" % (nw, nh))
+    sess.tag("extdesktopsize")
+    return rect, cb
+
+
 def gen_session(rng, lzo, force=None):
     """-> dict(script, expect=[(kind, fields)], tags)"""
     force = force or {}
@@ -215,6 +249,11 @@ def gen_session(rng, lzo, force=None):
                 sess.resize(nw, nh)
                 cbs.append("malloc:%d:%d" % (nw, nh))
                 sess.tag("newfbsize")
+                continue
+            if q < 0.17 and not big:
+                rect, cb = gen_extdesktop(rng, sess)
+                rects.append(rect)
+                cbs += cb
                 continue
             if "copyrect" in encs and q < 0.35 and sess.W > 1 and sess.H > 1:
                 rects.append(gen_copyrect(rng, sess))
@@ -303,6 +342,40 @@ def parse_obs(line):
     return d
 
 
+def jpeg_image(w, h):
+    """smooth RGB test image with clearly different red and blue (a swapped channel order is visible)"""
+    return bytes(v for y in range(h) for x in range(w) for v in (40 + 4 * x if w <= 48 else 40 + x % 200, 200 - 5 * (y % 32), 30 + (x + 2 * y) % 64))
+
+
+def check_jpeg(ob, fmt, W, H, before, x, y, w, h, rgb, tol8=14):
+    """fbdump after a Tight JPEG rectangle: inside the rectangle every channel is within a JPEG
+    tolerance of the source image, outside it the framebuffer is untouched"""
+    try:
+        fb = bytes.fromhex(ob)
+    except ValueError:
+        return "fbdump answered %r" % ob[:60]
+    b = fmt.bytespp
+    if len(fb) != W * H * b:
+        return "fbdump has %d bytes, expected %d" % (len(fb), W * H * b)
+    rs, gs, bs_ = fmt.tuple()[7:10]
+    maxs = (fmt.rmax, fmt.gmax, fmt.bmax)
+    for py in range(H):
+        for px_ in range(W):
+            o = (py * W + px_) * b
+            got = fb[o:o + b]
+            if x <= px_ < x + w and y <= py < y + h:
+                v = int.from_bytes(got, "big" if fmt.be else "little")
+                src = rgb[((py - y) * w + (px_ - x)) * 3:][:3]
+                for c, (sh, mx) in enumerate(zip((rs, gs, bs_), maxs)):
+                    gotc = (v >> sh) & mx
+                    want = (src[c] * mx + 127) // 255
+                    if abs(gotc - want) > (tol8 * mx + 254) // 255 + 1:
+                        return "JPEG pixel (%d,%d) channel %d is %d, source %d (of %d)" % (px_, py, c, gotc, want, mx)
+            elif fmt.mask_bytes(got) != fmt.mask_bytes(bytes(before[o:o + b])):
+                return "pixel (%d,%d) outside the JPEG rectangle changed" % (px_, py)
+    return None
+
+
 def oracle(sessn, impl):
     ops = sessn["script"].splitlines()
     if len(impl) != len(ops):
@@ -311,6 +384,11 @@ def oracle(sessn, impl):
         if ex is None:
             if ob != "ok":
                 return "op %d %r answered %r" % (i, op[:40], ob)
+            continue
+        if ex[0] == "jpegdump":
+            e = check_jpeg(ob, *ex[1:])
+            if e:
+                return "op %d: %s" % (i, e)
             continue
         if ex[0] == "init":
             _, W, H, name = ex
@@ -366,7 +444,7 @@ TRLE_MODES = [("packed", 4), ("reuse-packed",), ("raw",), ("reuse-prle",), ("prl
               ("reuse-packed",), ("solid",), ("packed", 16), ("packed", 2)]
 
 
-def gen_deterministic(rng, lzo, jpeg):
+def gen_deterministic(rng, lzo, jpeg, jpegrgb):
     """sessions that are part of EVERY run: every tile sub-encoding in every pixel-format
     instantiation of the template decoders, every Tight mode with stream resets carried by
     Fill (and JPEG) rectangles, empty cursor after non-empty cursor"""
@@ -464,23 +542,49 @@ def gen_deterministic(rng, lzo, jpeg):
                                 ("tight", 0, 0, 200, 150, {"force": "paln", "sid": 1, "resets": 0}),
                                 ("tight", 2, 2, 100, 120, {"force": "grad", "sid": 1, "resets": 0}),
                                 ("tight", 0, 0, 12, 12, {"force": "copy", "sid": 1, "resets": 0, "content": "few"})], "det:tight-pieces")
-    # ---- Tight JPEG rectangle carrying a stream reset (library only: JPEG is outside the model)
-    for name in ("rgb565le", "rgb888le"):
+    # ---- Tight JPEG rectangle carrying a stream reset (library only: JPEG is outside the model).
+    # The rectangle lies in the bottom-right corner; after it the framebuffer is dumped: inside the
+    # rectangle every channel within a JPEG tolerance of the source image, outside untouched.
+    for name in ("rgb565le", "rgb565be", "rgb555le", "rgb888le", "bgr888le", "rgb888be"):
         fmt = E.FMT_BY_NAME[name]
-        W, H = 48, 32
-        sess = E.Session(rng, fmt, W, H, lzo=lzo)
-        sess.force_sid, sess.force_resets = 0, 0
-        sess.z = []
-        r1 = sess.enc_rect("tight", 0, 0, W, H, force="copy")
-        j = jpeg(32, 16, 7)
-        sess.zs[0].reset()
-        rj = struct.pack(">HHHHI", 4, 4, 32, 16, 7) + bytes([0x91]) + E.compact_len(len(j)) + j
-        r3 = sess.enc_rect("tight", 0, 0, W, H, force="copy")
-        msgs = [([], E.fbu([r1]), ("msg", None, W, H, ["upd:0:0:%d:%d" % (W, H), "fin"])),
-                ([], E.fbu([rj, r3]), ("msg", crc_fb(sess), W, H, ["upd:4:4:32:16", "upd:0:0:%d:%d" % (W, H), "fin"]))]
-        sc, ex = _assemble(fmt, sf, W, H, ["tight"], [0], 1, msgs)
-        out.append({"script": sc, "expect": ex, "tags": ["det:tight-jpeg-reset"], "fmt": fmt.name, "sfmt": sf.name,
-                    "encs": ["tight"], "size": (W, H), "seg": [0], "nomodel": True})
+        for (W, H, jw, jh) in ((48, 32, 32, 16), (40, 24, 40, 24), (33, 9, 1, 1)):
+            sess = E.Session(rng, fmt, W, H, lzo=lzo)
+            sess.force_sid, sess.force_resets = 0, 0
+            sess.z = []
+            r1 = sess.enc_rect("tight", 0, 0, W, H, force="copy")
+            crc1, before = crc_fb(sess), bytes(sess.fb)
+            rgb = jpeg_image(jw, jh)
+            j = jpegrgb(jw, jh, 95, rgb)
+            sess.zs[0].reset()
+            jx, jy = W - jw, H - jh
+            rj = struct.pack(">HHHHI", jx, jy, jw, jh, 7) + bytes([0x91]) + E.compact_len(len(j)) + j
+            r3 = sess.enc_rect("tight", 0, 0, W, H, force="copy")
+            lines = ["client %s enc=tight cursor=1 fbmode=1" % " ".join(str(v) for v in fmt.tuple()), "seg 0",
+                     "init " + hexs(E.handshake(sf, W, H, b"det")),
+                     "msg " + hexs(E.fbu([r1])), "msg " + hexs(E.fbu([rj])), "fbdump", "msg " + hexs(E.fbu([r3])), "end"]
+            ex = [None, None, ("init", W, H, b"det"),
+                  ("msg", crc1, W, H, ["upd:0:0:%d:%d" % (W, H), "fin"]),
+                  ("msg", None, W, H, ["upd:%d:%d:%d:%d" % (jx, jy, jw, jh), "fin"]),
+                  ("jpegdump", fmt, W, H, before, jx, jy, jw, jh, rgb),
+                  ("msg", crc_fb(sess), W, H, ["upd:0:0:%d:%d" % (W, H), "fin"]), None]
+            out.append({"script": "\n".join(lines) + "\n", "expect": ex, "tags": ["det:tight-jpeg-reset", "det:tight-jpeg-pixels"],
+                        "fmt": fmt.name, "sfmt": sf.name, "encs": ["tight"], "size": (W, H), "seg": [0], "nomodel": True})
+    # ---- ExtendedDesktopSize: every screen count 1..4, new size and unchanged size, followed by pixels
+    for name in ("bgr233", "rgb565le", "rgb888le"):
+        fmt = E.FMT_BY_NAME[name]
+        for nscr in (1, 2, 3, 4):
+            for size in ((31, 17), (20, 10), (1, 1), (100, 3)):
+                W, H = 20, 10
+                sess = E.Session(rng, fmt, W, H, lzo=lzo)
+                sess.z = []
+                r1 = sess.enc_rect("raw", 0, 0, W, H)
+                m1 = ([], E.fbu([r1]), ("msg", crc_fb(sess), W, H, ["upd:0:0:%d:%d" % (W, H), "fin"]))
+                re_, cb = gen_extdesktop(rng, sess, size=size, nscreens=nscr)
+                r2 = sess.enc_rect("raw", sess.W - 1, sess.H - 1, 1, 1)
+                m2 = ([], E.fbu([re_, r2]), ("msg", crc_fb(sess), sess.W, sess.H, cb + ["upd:%d:%d:1:1" % (sess.W - 1, sess.H - 1), "fin"]))
+                sc, ex = _assemble(fmt, sf, W, H, ["raw"], [0], 1, [m1, m2])
+                out.append({"script": sc, "expect": ex, "tags": ["det:extdesktopsize", "extdesktopsize", "raw"], "fmt": fmt.name,
+                            "sfmt": sf.name, "encs": ["raw"], "size": (W, H), "seg": [0]})
     return out
 
 
@@ -554,7 +658,10 @@ def run(ctx):
         def jpeg(w, hh, seed):
             rc, o, err = ctx.run_lines(h, "jpeg %d %d %d\n" % (w, hh, seed), env={"ASAN_OPTIONS": "detect_leaks=0"})
             return bytes.fromhex(o[0])
-        sessions += gen_deterministic(ctx.rng, lzo, jpeg)
+        def jpegrgb(w, hh, q, rgb):
+            rc, o, err = ctx.run_lines(h, "jpegrgb %d %d %d %s\n" % (w, hh, q, rgb.hex()), env={"ASAN_OPTIONS": "detect_leaks=0"})
+            return bytes.fromhex(o[0])
+        sessions += gen_deterministic(ctx.rng, lzo, jpeg, jpegrgb)
         for target in (126, 127, 128, 129, 16382, 16383, 16384, 16385):
             b = gen_tight_boundary(ctx.rng, target)
             if b:
@@ -563,15 +670,24 @@ def run(ctx):
         for _ in range(n):
             sessions.append(gen_session(ctx.rng, lzo))
     lzo.close()
-    def one(s):
+    def one1(s, env, limit=120):
         if s.get("nomodel"):
-            rc, impl, err = ctx.run_lines(h, s["script"], timeout=120)
+            rc, impl, err = ctx.run_lines(h, s["script"], timeout=limit, env=env)
             f = None
             if rc != 0:
                 f = {"kind": "crash", "what": "client.session: harness exit %d" % rc, "script": s["script"].splitlines()[:400],
                      "impl": impl[-20:], "detail": err}
             return impl, [], f
-        return common.compare_streams(ctx, s["script"], h, d, "client.session", timeout=120)
+        return common.compare_streams(ctx, s["script"], h, d, "client.session", timeout=limit, env=env)
+
+    def one(s):
+        r = one1(s, None)
+        if realtime_hang(r[0]):
+            # the harness's real-time backstop fired (its hang detection proper is virtual): only a
+            # repetition alone, with ten times the limit, counts
+            with build.Lock("confirm-hang"):
+                r = one1(s, {"VH_ALARM": "600"}, 900)
+        return r
     res = common.pmap(one, sessions)
     evals, nontriv = 0, set()
     for s, (impl, model, f) in zip(sessions, res):
